@@ -662,14 +662,6 @@ pub fn encode_with_fixed_block_size<T: Source>(
         Context::new(src.bits_per_sample(), src.channels()),
     );
 
-    // Probably not very important, but it follows the FLAC reference encoder's behavior
-    // that copies `block_size` to `max_block_size` field of `StreamInfo` when there's
-    // only one frame that is shorter than `block_size`.
-    stream
-        .stream_info_mut()
-        .set_block_sizes(block_size, block_size)
-        .unwrap();
-
     loop {
         let read_samples = src.read_samples(block_size, &mut framebuf_and_context)?;
         if read_samples == 0 {
@@ -683,6 +675,14 @@ pub fn encode_with_fixed_block_size<T: Source>(
         )?;
         stream.add_frame(frame);
     }
+
+    // A fixed-blocksize stream declares `min_block_size == max_block_size == block_size`
+    // (the final, possibly shorter, block is excluded from the minimum; RFC 9639 sec. 8.2).
+    // This must be done after the frames are added because `add_frame` updates the fields.
+    stream
+        .stream_info_mut()
+        .set_block_sizes(block_size, block_size)
+        .unwrap();
 
     let (_, context) = framebuf_and_context;
     stream
